@@ -14,22 +14,20 @@ def compute_meta(func, _dtype, *args, **kwargs):
     with np.errstate(all="ignore"), warnings.catch_warnings():
         warnings.simplefilter("ignore", category=RuntimeWarning)
 
-        args_meta = [
-            (
-                x._meta
-                if isinstance(x, ArrayExpr)
-                else meta_from_array(x) if is_arraylike(x) else x
-            )
-            for x in args
-        ]
-        kwargs_meta = {
-            k: (
-                v._meta
-                if isinstance(v, ArrayExpr)
-                else meta_from_array(v) if is_arraylike(v) else v
-            )
-            for k, v in kwargs.items()
-        }
+        def _meta_of(x):
+            if isinstance(x, ArrayExpr):
+                # an expression's meta is not necessarily empty along every
+                # axis (e.g. Stack, PartialReduce); the classic Array
+                # constructor normalises it, and so must we before combining
+                # metas, or they do not broadcast against each other
+                meta = x._meta
+                if is_arraylike(meta):
+                    meta = meta_from_array(meta, ndim=x.ndim)
+                return meta
+            return meta_from_array(x) if is_arraylike(x) else x
+
+        args_meta = [_meta_of(x) for x in args]
+        kwargs_meta = {k: _meta_of(v) for k, v in kwargs.items()}
 
         # todo: look for alternative to this, causes issues when using map_blocks()
         # with np.vectorize, such as dask.array.routines._isnonzero_vec().
